@@ -74,6 +74,9 @@ M = [
      "                self.get_profile(1),  # plurality profile\n                self.m_2,\n                fractional_transfer,", ["C09"]),
     ("stv-tied-position-check-first-position-only", "votekit/elections/election_types/ranking/stv.py",
      "            elif any(len(s) > 1 for s in ballot.ranking):", "            elif len(ballot.ranking[0]) > 1:", ["C20"]),
+    ("cambridge-voter-types-from-other-blocs-cohesion", "votekit/ballot_generator.py",
+     "        cohesion_parameters = {b: self.cohesion_parameters[b][b] for b in self.blocs}\n\n        # compute the number of bloc and crossover voters in each bloc using Huntington Hill\n        voter_types = [\n            (b, t) for b in list(self.bloc_voter_prop.keys()) for t in [\"bloc\", \"cross\"]",
+     "        cohesion_parameters = {b: self.cohesion_parameters[o][o] for b, o in zip(self.blocs, self.blocs[::-1])}\n\n        # compute the number of bloc and crossover voters in each bloc using Huntington Hill\n        voter_types = [\n            (b, t) for b in list(self.bloc_voter_prop.keys()) for t in [\"bloc\", \"cross\"]", ["C14"]),
     ("load-csv-dropna", "votekit/cvr_loaders.py", "df.groupby(ranks, dropna=False)", "df.groupby(ranks, dropna=True)", ["C18"]),
     ("lp-root-omitted", "votekit/metrics/distances.py", "lp_dist = sum ** (1 / p_value)", "lp_dist = sum", ["C19"]),
     ("stv-m-bound-off-by-one", "votekit/elections/election_types/ranking/stv.py",
